@@ -26,17 +26,27 @@ LEVEL_TEXT = ("Theorems (Lean 4) about the statement-by-statement model of the e
               "`interp` for a table (`params_show_normalised`), a limit iff it differs from the default (`limits_show_nondefault`), the per-phase value of a load "
               "(`phases_show_values`), and all four are the same up to row order for every valid topological order (`reports_order_free`). rail_rep() (Props/C16Rail): two histories with the same final structure give rail reports "
               "that are equal up to row order and the order inside a warning cell (`histories_same_rail_rep`; all members of a rail show the same Vin: "
-              "`rail_members_same_vin`). NOT proved: "
-              "save / diagrams as functions of the abstract structure - these rest on the differential test: after "
+              "`rail_members_same_vin`). The diagrams (Props/C16Diag, bridge from the edit-history model to Model/Diagram + Props/C19Order): two histories from "
+              "constructors with the same system name whose final structures are the same give make_diag() results that are both the same exception or "
+              "equivalent graphs (same clusters / members / top-level nodes / edges / every attribute, up to order) for every configuration and group flag "
+              "(`histories_same_diagram`, no hypothesis left), and make_hdiag() likewise with equal colours, loss labels and legend (`histories_same_heat_diagram`, "
+              "under the hypotheses of `histories_same_table` only). save() (Props/C16Save, bridge from the edit-history model to Model/Persist + "
+              "Props/C12Same): two histories with the same final structure and system name write documents whose reloads are both the same exception or equivalent systems "
+              "(`histories_same_save_partial`: no hypothesis on the version string, the registries or reserved names; partial through `Built` components and non-empty "
+              "component names), and the reloads solve to the same table (`histories_same_save_same_table_partial`); the documents themselves differ in section order. "
+              "All of this is additionally tied to the code by the differential test: after "
               "random successful edit histories every report (solve, rail_rep, params, limits, phases, tree, save, make_diag) of "
               "the edited system is compared with the same report of systems built from scratch from the final structure in a "
               "canonical and in shuffled construction orders.")
 LEVEL_NOTE = ("proved: bookkeeping factors through the abstraction; solver and solve() table are invariant under node renumbering, sibling "
               "order and topological order. Which law exception escapes when two components fail in the same sweep does depend on the "
-              "processing order (the exception class does not). The composition of the two halves and the other reports are tested, not proved.")
+              "processing order (the exception class does not). The composition (two histories, same final structure => same solve() table / "
+              "rail report / configuration reports up to row order) is proved (C16Final, C16Rail, C16Reports); save() (C16Save, partial through `Built` / non-empty names) and the diagrams (C16Diag) are proved "
+              "as functions of the final structure too; rustworkx (index allocation, edge order, topological order) is a parameter of every statement.")
 LEVEL_NOTE = LEVEL_NOTE + (' The saved document is also judged by what it is for: from_file(save(S)) must succeed (or fail alike) and solve alike for the edited system, the fresh build and the shuffled builds (`reload`).')
 MODULE = "SysLoss.Props.C16"
-MODULES = ["SysLoss.Props.C16", "SysLoss.Props.C16Renumber", "SysLoss.Props.C16Final", "SysLoss.Props.C16Reports", "SysLoss.Props.C16Rail"]
+MODULES = ["SysLoss.Props.C16", "SysLoss.Props.C16Renumber", "SysLoss.Props.C16Final", "SysLoss.Props.C16Reports", "SysLoss.Props.C16Rail",
+           "SysLoss.Props.C16Diag", "SysLoss.Props.C16Save"]
 THEOREMS = [
     "SysLoss.C16.names_factor", "SysLoss.C16.rel_factors", "SysLoss.C16.phase_lkup_factors",
     "SysLoss.C16.noops_invisible", "SysLoss.C16.factors_nonvacuous", "SysLoss.C16.toSSys_node",
@@ -62,7 +72,19 @@ THEOREMS = [
     # Props/C16Rail: rail_rep() as a function of the final structure
     "railRep_perm_congr", "railRep_perm_congr_needs_uniform", "rail_members_same_vin", "solve_railVinUniform", "rail_rep_renumber",
     "rail_rep_renumber_rows", "RailPerm.length_eq", "RailPerm.mem_left", "RailPerm.mem_right", "RailsUnique.iso", "railsOf_perm",
-    "toSSys_railsUnique", "same_structure_same_rail_rep", "histories_same_rail_rep")]
+    "toSSys_railsUnique", "same_structure_same_rail_rep", "histories_same_rail_rep")] + [
+    "SysLoss.C16D." + t for t in (
+    # Props/C16Diag: make_diag() / make_hdiag() as functions of the final structure (bridge from the edit-history model to Model/Diagram)
+    "diagComps_perm", "diagEdges_perm", "diagComps_factor", "mem_diagEdges", "diagEdges_nodup", "readsOk", "histories_readsOk",
+    "diagComps_length", "diagEdges_length", "name_step", "name_run", "name_init", "same_structure_same_diagram",
+    "histories_same_diagram", "histories_same_mdiag", "solve_aligned", "lossRows_by_name", "lossRows_perm",
+    "same_structure_same_heat_diagram", "histories_same_heat_table", "histories_same_heat_diagram")] + [
+    "SysLoss.C16S." + t for t in (
+    # Props/C16Save: save() as a function of the final structure for edit histories (bridge from the edit-history model to Model/Persist)
+    "regN_run", "hasSrc_run", "toNode_parents_eq_toSSys", "toDesc_same", "toDesc_nodes_perm", "toDesc_descWF_partial",
+    "fromFile_save_toDesc", "same_structure_same_save_partial", "histories_same_save_partial",
+    "same_structure_same_save_same_table_partial", "histories_same_save_same_table_partial", "reachable_descWF_partial",
+    "histories_same_desc")]
 RULE = ("random edit histories of 5-50 calls (all six methods, ~20% rejected and dropped, components with limits and interpolation "
         "tables, phases, groups, rails, a PMux in ~50%) with forced coverage of: rename through change_comp, deletion with and "
         "without children, re-adding a deleted name, edits above / below / of the PMux and of its inputs, source deletion freeing "
@@ -261,6 +283,8 @@ def fs_to_desc(fs, order):
         d = c["desc"]
         k = d["kind"]
         args = {main[k]: d["val"]}
+        if k == "pmux" and d.get("rs_list"):
+            args["rs"] = [d["val"]] * int(d["rs_list"])
         if k == "converter":
             args["eff"] = 0.9
         if d.get("limits"):
@@ -404,7 +428,8 @@ def check_point(ctx, run, stream, diag=False):
     rep = reports(run.sys, diag=diag)
     live = sorted(c[0] for c in run.cur()["comps"])
     for name, r in rep.items():
-        if r[0] == "exc" and not (name in ("solve", "rail_rep") and r[1] in ("ValueError", "RuntimeError")):
+        if r[0] == "exc" and not (name in ("solve", "rail_rep") and r[1] in ("ValueError", "RuntimeError")) \
+                and not (name == "reload" and r[1] in ("solve:ValueError", "solve:RuntimeError")):     # the RELOADED system has no steady state either
             out.append(("report_raises", {"report": name, "exception": r[1]}))
     # every report lists exactly the live components
     if rep["params"][0] == "ok":
